@@ -18,11 +18,12 @@ LEVEL = "exploration"
 RULE = ("case = (wrapped program AST, auxiliary program ASTs for cleanup/except/else, wrapper variant, script); wrapped "
         "programs: all ASTs <=4 nodes (quick) / <=5 (thorough) + random to 10 nodes; auxiliary programs from a fixed set of 9 "
         "(yielding, raising, swallowing, yielding-in-finally); variants: finalize_wrapper with callable / generator "
-        "instance / Msg list, finalize_decorator, contingency_wrapper over all presence combinations of except/else/"
+        "instance / Msg list, finalize_wrapper(pause_for_debug=True), finalize_decorator (first and second invocation of one decorated function), contingency_wrapper over all presence combinations of except/else/"
         "final x auto_raise; scripts: all of length <=2 + single deviations over the whole run; one result per (program, "
         "variant); distinct = (program, variant); non-trivial = wrapped program can yield")
 ASSUMPTIONS = ["reference = the literal try/except/else/finally in this module (cleanup skipped only when GeneratorExit "
-               "arrives while the wrapped plan is suspended)", "pause_for_debug=False"]
+               "arrives while the wrapped plan is suspended)", "pause_for_debug=True adds one 'pause' message before the "
+               "exception travels on; whatever is sent or thrown at that message, the cleanup still runs"]
 REQUIRED_COUNTERS = {"drives": 20000, "cleanup_once_checked": 3000, "cleanup_skipped_on_close_checked": 1000,
                      "throws_inside_cleanup": 200}
 MANIFEST = {
@@ -70,6 +71,25 @@ def ref_finalize(plan, final_factory):
     return ret
 
 
+def ref_finalize_pfd(plan, final_factory):
+    """finalize_wrapper(..., pause_for_debug=True): a 'pause' message before the exception travels on."""
+    from bluesky.plan_stubs import pause
+
+    closed = False
+    try:
+        ret = yield from plan
+    except GeneratorExit:
+        closed = True
+        raise
+    except BaseException:
+        yield from pause()
+        raise
+    finally:
+        if not closed:
+            yield from final_factory()
+    return ret
+
+
 def ref_contingency(plan, except_plan, else_plan, final_plan, auto_raise):
     closed = False
     try:
@@ -94,7 +114,7 @@ def ref_contingency(plan, except_plan, else_plan, final_plan, auto_raise):
     return ret
 
 
-VARIANTS = (["fw-callable", "fw-instance", "fw-list", "fdec"] +
+VARIANTS = (["fw-callable", "fw-instance", "fw-list", "fdec", "fw-pfd", "fdec-2nd"] +
             [f"cw-{e}{l}{f}-{'ar' if ar else 'nr'}" for e in "E_" for l in "L_" for f in "F_" for ar in (True, False)])
 
 
@@ -131,6 +151,40 @@ def build(variant, body_ast, aux, log, real):
             g = bp.finalize_wrapper(body.gen, Once())
         else:
             g = ref_finalize(body.gen, lst)
+    elif variant == "fw-pfd":
+        g = bp.finalize_wrapper(body.gen, cf, pause_for_debug=True) if real else ref_finalize_pfd(body.gen, cf)
+    elif variant == "fdec-2nd":
+        # the SAME decorated function is invoked twice (first with an empty body, run to its end); judged: the second run
+        calls = []
+
+        def body_func2():
+            calls.append(1)
+            return iter(()) if len(calls) == 1 else body.gen
+
+        if real:
+            factory = bp.finalize_decorator(cf)(body_func2)
+        else:
+            def factory():
+                inst = cf()
+                plan = body_func2()
+                closed = False
+                try:
+                    ret = yield from plan
+                except GeneratorExit:
+                    closed = True
+                    raise
+                finally:
+                    if not closed:
+                        yield from inst
+                return ret
+
+        try:
+            for _m in factory():
+                pass
+            log.append(("W", "warm-up", "returned"))
+        except Exception as e:  # noqa: BLE001  (a raising cleanup program ends the first invocation)
+            log.append(("W", "warm-up", type(e).__name__))
+        g = factory()
     elif variant == "fdec":
         body_reg = []
 
@@ -239,6 +293,11 @@ def run_case(case):
                 else:
                     # direct count oracle on the real side
                     has_cleanup = variant.startswith("f") or variant.split("-")[1][2] == "F"
+                    wi = next((i for i, e in enumerate(lg) if e[0] == "W"), None)
+                    if wi is not None:   # second invocation: count only what happened after the warm-up run
+                        lg = lg[wi + 1:]
+                        wf = next((i for i, e in enumerate(full) if e[0] == "W"), -1)
+                        full = full[wf + 1:]
                     if has_cleanup:
                         started = sum(1 for e in lg if e[0] == "C" and e[1] in ("yield", "raise", "ret"))
                         c_first = [e for e in lg if e[0] == "C" and e[1] in ("yield", "raise", "ret")]
